@@ -1035,6 +1035,11 @@ class _State(object):
             return
         Q = ec.mul(env.mc, d, env.mc.G)
         k = KeyEntry(sk, d, op["hash"], Q)
+        if op.get("i", 0) % 6 == 0:
+            # the verifying side received the key as a plain affine point
+            # object (no declared order)
+            k.vk = env.lk.VerifyingKey.from_public_point(
+                env.le.Point(env.cf, Q[0], Q[1]), env.curve, hf)
         if len(self.keys) >= KEY_CAP:
             self.keys[self.nops % KEY_CAP] = k
         else:
